@@ -202,11 +202,20 @@ impl std::io::Seek for Trickle<'_> {
 pub fn op_ob(args: &[&str]) -> String {
     let data = blob(args[0]);
     let bs = bs_of(args[1]);
-    let (entry, m) = match args[2].split_once("+t") {
-        Some((e, m)) => (e, m.parse::<usize>().unwrap()),
-        None => (args[2], 0),
-    };
-    let rd = || Trickle { data: &data[..], pos: 0, m };
+    // suffixes: `+t<m>` (at most m bytes per read), `+p<k>` (the reader is handed over positioned at byte k, as
+    // after reading a header or after an earlier pass over the data; only `create` may be given such a reader: it
+    // measures and rewinds the source itself)
+    let mut entry = args[2];
+    let (mut m, mut p0) = (0usize, 0usize);
+    if let Some((e, k)) = entry.split_once("+p") {
+        entry = e;
+        p0 = k.parse::<usize>().unwrap().min(data.len());
+    }
+    if let Some((e, k)) = entry.split_once("+t") {
+        entry = e;
+        m = k.parse::<usize>().unwrap();
+    }
+    let rd = || Trickle { data: &data[..], pos: p0, m };
     let size = data.len() as u64;
     let tree = BaoTree::new(size, bs);
     let obsize = tree.outboard_size() as usize;
